@@ -280,6 +280,31 @@ PROPS = {
         level_note=CONC_NOTE, design_ref='DESIGN.md section 8 (C10)',
         assumptions=['sync.Once.Do runs its argument at most once and returns after it completed'],
     ),
+    'C11': dict(
+        monitor=True,
+        streams=[dict(name='history', n_quick=2500, n_thorough=60000, nontrivial=_nt_pair, compare=_pair_compare, wf_check=False, race=True),
+                 chain_stream(2000, 50000, _nt_bound, name='regroup')],
+        rule='stream history (run under the race detector): a chain without Memoize/Singleton (their process-wide caches are history by design, C09) is built once, '
+             'one provider possibly standing behind a GenerateFromInjectionChain generator; two collections are derived from it (Sequence, Append); then a seeded '
+             'history of 3-10 operations runs over a growing pool of collections sharing its providers: Append (twice on the same collection), annotation of whole '
+             'collections (Required/Desired/Shun/Cacheable/MustCache/NotCacheable/NonFinal/Reorder/Parallel), Sequence around a collection, Bind with the original '
+             'signatures followed by init/invoke, Bind with func() and func() error, Condense (both error treatments) and Bind of the result, DownFlows/UpFlows/String, '
+             're-annotation of single shared providers (Loose/MustConsume/ConsumptionOptional/AllowReturnShadowing and flags), 2-4 concurrent Binds of pool members, '
+             'Run, SetCallback; afterwards the original collection is bound and observed twice, the two early derivations are observed, a collection derived '
+             'after the history is observed in a context where the generator picks another replacement, and the original is observed once more; all six '
+             'observations must equal the model\'s for the flat lists (i.e. equal each other and a never-used copy); non-trivial: the chain binds. '
+             'stream regroup: as for C13 (Append twice on one base)',
+        level_text='Theorems C11_history_frame (specification: no sequence of derive/annotate/bind/inspect operations over a pool of collections changes an existing '
+                   'collection), C11_bind_history_independent, C11_bind_twice_same and C11_derived_independent (binding after any history yields the observation '
+                   'of the original contents; a derived collection and its source do not affect each other), for all histories; Coq, no axioms. In the specification '
+                   'collections are values, so these hold by construction of the model; what is checked is that the real package - slices of shared provider '
+                   'pointers, copy-on-annotate - refines it: the history stream runs the same operation kinds against /repo, sequentially and concurrently under '
+                   'the race detector, and compares with the extracted model.',
+        level_note=CHAIN_NOTE + ' Aliasing inside the Go heap (shared backing arrays, shared annotation maps) is not modelled; it is observed through behaviour on the '
+                   'generated histories and by the race detector only. Memoize/Singleton caches are excluded from the history stream.',
+        design_ref='DESIGN.md section 8 (C11)',
+        assumptions=['heap aliasing is not modelled; refinement of the value-semantics specification is validated by differential histories'],
+    ),
     'C12': dict(
         monitor=True,
         streams=[conc_stream('debuglock', 60, 1500),
